@@ -105,8 +105,16 @@ def sibling(sp, rng, kind):
                                                                              "NetIrrSMT": 60.0}, "schedule": None}
     elif kind == "crop_kw":
         hi0 = float(common.crop_catalogue()[a["crop"]["name"]]["HI0"])
+        pop = float(common.crop_catalogue()[a["crop"]["name"]]["PlantPop"])
         a["crop"]["kw"] = dict(a["crop"].get("kw", {}), PlantMethod=int(rng.integers(0, 2)), ETadj=int(rng.integers(0, 2)),
-                               HI0=round(hi0 * float(gen.pick(rng, [0.96, 0.98, 1.02])), 4))
+                               HI0=round(hi0 * float(gen.pick(rng, [0.96, 0.98, 0.99, 1.01, 1.02])), 4),
+                               PlantPop=round(pop * float(gen.pick(rng, [0.4, 0.7, 1.0, 1.5]))))
+    elif kind == "crop_param":
+        # the same crop with one tabulated parameter overridden (a sensitivity loop)
+        cat = common.crop_catalogue()[a["crop"]["name"]]
+        name = gen.pick(rng, ["CCx", "CCx", "WP", "Zmax", "Kcb", "HI0"])
+        val = float(cat[name]) * float(gen.pick(rng, [0.8, 0.9, 0.95]))
+        a["crop"]["kw"] = dict(a["crop"].get("kw", {}), **{name: round(val, 4)})
     elif kind == "planting":
         # same window, the crop planted three to six weeks later
         import datetime as dt
@@ -141,7 +149,7 @@ def sibling(sp, rng, kind):
     return a
 
 
-SIBLING_KINDS = ["weather", "soil", "irr", "crop_kw", "co2", "iwc", "gw", "fm", "planting", "subsoil"]
+SIBLING_KINDS = ["weather", "soil", "irr", "crop_kw", "co2", "iwc", "gw", "fm", "planting", "subsoil", "crop_param", "crop_param"]
 
 
 def cases(tier, seed):
@@ -171,8 +179,13 @@ def cases(tier, seed):
     # near-identical predecessors: same dates and crop, one factor changed
     nsib = base.n_cases(120, 1500, tier)
     for j in range(nsib):
-        b = j % n
-        kind = SIBLING_KINDS[(j // n) % len(SIBLING_KINDS)] if j >= n else "weather"
+        kind = SIBLING_KINDS[j % len(SIBLING_KINDS)]
+        b = (j * 7 + j // len(SIBLING_KINDS)) % n
+        if j % 5 == 0:
+            # make sure the members that only few siblings can disturb are visited
+            special = [k for k, sp_ in enumerate(specs) if sp_["crop"].get("kw", {}).get("SwitchGDD") == 1]
+            if special:
+                b, kind = special[(j // 5) % len(special)], "planting"
         a = sibling(specs[b], rng, kind)
         plan = [{"spec": a, "run": True, "idx": -1}, {"spec": specs[b], "run": True, "idx": b}]
         if j % 3 == 2:
